@@ -52,7 +52,7 @@ PROPERTIES['C03'] = {
     'level_note': _DOC_NOTE,
 }
 PROPERTIES['C05'] = {
-    'modules': ['harness.rep_ops', 'harness.view_ops'], 'budget': {'quick': 900, 'thorough': 3300},
+    'modules': ['harness.rep_ops', 'harness.view_ops', 'harness.c17_spacing'], 'budget': {'quick': 900, 'thorough': 3300},
     'level_text': _DOC_TEXT % 'a generic walker over the field descriptors checking store membership, span nesting/order/disjointness and leaf ownership',
     'level_note': _DOC_NOTE,
 }
@@ -80,6 +80,12 @@ PROPERTIES['C09'] = {
     'modules': ['harness.c09_values'], 'budget': {'quick': 900, 'thorough': 3300},
     'level_text': _DOC_TEXT % 'read-back, a dictionary of all other value properties before/after, a record-of-optionals model for the cost and payee/narration groups, and the same readings on the re-parsed text',
     'level_note': _DOC_NOTE + ' Property ordinals and value choices are found by introspection of the descriptor objects, so new properties are covered automatically.',
+}
+
+PROPERTIES['C17'] = {
+    'modules': ['harness.c17_spacing'], 'budget': {'quick': 900, 'thorough': 3300},
+    'level_text': _DOC_TEXT % 'an index walk over a snapshot of the token list for the getter; character-level and identity-level comparison of the document for the setter',
+    'level_note': 'Six templates (blank / whitespace-only lines, CRLF, trailing blanks, missing final newline, nested postings and meta); spacing strings of <= 3 units from {SP, TAB, LF, CRLF}; every model and token of the template. Trusted: CrossHair path exhaustion over the selectors.',
 }
 
 NOT_APPLICABLE = {
